@@ -193,6 +193,8 @@ class CIGAR(list):
       return "gfapy.CIGAR.Operation({},{})".format(self.length, repr(self.code))
 
     def __eq__(self, other):
+      if not isinstance(other, CIGAR.Operation):
+        return NotImplemented
       return self.length == other.length and self.code == other.code
 
 Operation = CIGAR.Operation
